@@ -132,6 +132,16 @@ func verifC01_inmem() {
 	}
 }
 
+func verifC01Bound(name string) []byte {
+	switch verifChoose(name+".shape", 3) {
+	case 1:
+		return nil
+	case 2:
+		return []byte{}
+	}
+	return verifC01Key(name)
+}
+
 // verifC01_range: range iteration visits exactly the in-range keys once, in order.
 func verifC01_range() {
 	t := NewTree(nil, true, nil)
@@ -143,12 +153,15 @@ func verifC01_range() {
 		t.Set(k, v)
 		m.set(k, v)
 	}
-	start, end := verifC01Key("start"), verifC01Key("end")
+	// bound shapes: a key, nil (no bound on that side), or an empty non-nil slice (a real bound:
+	// every key is >= "", no key is < "")
+	start, end := verifC01Bound("start"), verifC01Bound("end")
 	asc := verifChoose("ascending", 2) == 1
 	incl := verifChoose("inclusive", 2) == 1
 	var want [][]byte
 	for _, it := range m.items {
-		in := bytes.Compare(it.k, start) >= 0 && (bytes.Compare(it.k, end) < 0 || (incl && bytes.Equal(it.k, end)))
+		in := (start == nil || bytes.Compare(it.k, start) >= 0) &&
+			(end == nil || bytes.Compare(it.k, end) < 0 || (incl && bytes.Equal(it.k, end)))
 		if in {
 			want = append(want, it.k)
 		}
